@@ -184,6 +184,7 @@ class P:
     def expr(self, nostruct=False):
         return self.range_(nostruct)
 
+
     def range_(self, ns):
         if self.at("..") or self.at("..="):
             op = self.eat()[1]
@@ -278,7 +279,7 @@ class P:
             elif self.at("("):
                 e = ("call", e, self.args())
             elif self.at("?"):
-                raise Unsupported("? operator")
+                self.eat()
             else:
                 return e
 
@@ -383,6 +384,22 @@ class P:
                 path.append(self.eat()[1])
             if path[-1] == "size_of" and targs:
                 return ("sizeof", targs[0])
+            if not ns and self.at("{") and (path[-1][:1].isupper()) and self.struct_lit_ahead():
+                self.eat("{")
+                fields = []
+                while not self.at("}"):
+                    if self.at(".."):
+                        raise Unsupported("struct update syntax")
+                    fname = self.eat()[1]
+                    if self.at(":"):
+                        self.eat()
+                        fields.append((fname, self.expr()))
+                    else:
+                        fields.append((fname, ("path", [fname])))
+                    if self.at(","):
+                        self.eat()
+                self.eat("}")
+                return ("structlit", path[-1], fields)
             return ("path", path)
         if self.at("<"):  # <T>::f
             self.eat()
@@ -396,6 +413,10 @@ class P:
                 path.append(self.eat()[1])
             return ("path", path)
         raise Unsupported(f"expression starts with {v!r}")
+
+    def struct_lit_ahead(self):
+        a, b = self.peek(1), self.peek(2)
+        return (a[1] == "}" and a[0] == "op") or (a[0] == "id" and b[1] in (":", ",", "}") and b[0] == "op")
 
     def if_(self):
         self.eat("if")
@@ -514,6 +535,21 @@ class P:
             if self.at(";"):
                 self.eat()
             return ("return", e)
+        if self.at("macro_rules!"):
+            self.eat()
+            self.eat()
+            open_ = self.eat()[1]
+            close = {"(": ")", "[": "]", "{": "}"}[open_]
+            d = 1
+            while d:
+                tk = self.eat()
+                if tk[0] == "op" and tk[1] == open_:
+                    d += 1
+                elif tk[0] == "op" and tk[1] == close:
+                    d -= 1
+            if self.at(";"):
+                self.eat()
+            return None
         if self.at("fn") or self.at("use"):
             # nested item: skip (nested fns are collected separately by find_functions)
             d = 0
@@ -527,7 +563,18 @@ class P:
                         return None
                 elif tk[1] == ";" and d == 0:
                     return None
-        e = self.expr()
+        if self.at("if") or self.at("match") or self.at("loop") or (self.at("unsafe") and self.peek(1)[1] == "{"):
+            # block-like expression statement: ends at its closing brace (a following `(`/`[` starts a new statement)
+            e = self.primary(False)
+            if self.at(";"):
+                self.eat()
+                return ("expr", e, True)
+            if self.at("}"):
+                return ("expr", e, False)
+            if not self.at("."):
+                return ("expr", e, True)
+            self.i -= 0
+        e = self.expr() if not (self.at(".")) else self.expr()
         for op in ("=", "^=", "&=", "|=", "+=", "-=", "*=", "<<=", ">>=", "%=", "/="):
             if self.at(op):
                 self.eat()
@@ -551,13 +598,17 @@ class Fn:
 def expand_macros(src):
     """single-arm macro_rules! whose body defines functions: expand every invocation textually"""
     out = src
-    for m in re.finditer(r"macro_rules!\s*(\w+)\s*\{", src):
+    for m in re.finditer(r"macro_rules!\s*(\w+)\s*[\{\(]", src):
         name = m.group(1)
-        end = match_brace(src, m.end() - 1)
+        end = (match_brace if src[m.end() - 1] == "{" else match_paren)(src, m.end() - 1)
         body = src[m.end():end - 1]
-        am = re.match(r"\s*\(\s*(.*?)\)\s*=>\s*\{", body, re.S)
+        am = re.match(r"\s*\(\s*(.*?)\)\s*=>\s*[\{\(]", body, re.S)
         if not am:
             continue
+        if body[am.end() - 1] == "(":
+            # `=> ( … )` arm: same as braces for our purposes
+            pe = match_paren(body, am.end() - 1)
+            body = body[:am.end() - 1] + "{" + body[am.end():pe - 1] + "}" + body[pe:]
         rep = re.fullmatch(r"\$\((.*)\)\s*,\s*\+", am.group(1).strip(), re.S)
         if rep:
             # `$( inner ),+` : every comma-separated group of the invocation instantiates the `$( … )+` part of the template
@@ -686,6 +737,7 @@ TRAITS = set()
 STRUCTS = {}
 MACROS = {}
 BLOCK_SIZES = {}
+KEY_SIZES = {}
 ASSOC_TYPES = {}
 
 
@@ -700,6 +752,9 @@ def find_functions(path, cfg=()):
         bm = re.search(r"type\s+BlockSize\s*=\s*(?:\w+::)*U(\d+)\s*;", body)
         if bm and tr == "BlockSizeUser":
             BLOCK_SIZES[ty] = int(bm.group(1))
+        km = re.search(r"type\s+KeySize\s*=\s*(?:\w+::)*U(\d+)\s*;", body)
+        if km and tr == "KeySizeUser":
+            KEY_SIZES[ty] = int(km.group(1))
         for am in re.finditer(r"type\s+(\w+)\s*=\s*([^;]+);", body):
             ASSOC_TYPES[(ty, am.group(1))] = am.group(2).strip()
     for m in re.finditer(r"\bstruct\s+(\w+)\s*(?:<[^{;(]*?>)?\s*(?:where[^{;]*)?\{", src):
@@ -885,6 +940,8 @@ class Slot:
 
 
 class Arr:
+    newtype = False  # hybrid-array `Array<u8, N>` (Key / Block): `.0` is the inner array
+
     def __init__(self, slots):
         self.slots = slots
 
@@ -997,6 +1054,13 @@ class Exec:
             inputs.append((arg, 8 * n))
             inp = Arr([Slot(BV(8, f"{arg}.extractLsb' {8 * (n - 1 - i)} 8", atom=False)) for i in range(n)])
             return InOutV(inp, Arr([Slot(None) for _ in range(n)]))
+        if t[0] == "name" and t[1] in ("Key", "Block") and self.self_ty:
+            n = (self.lens.get("#key") or KEY_SIZES.get(self.self_ty)) if t[1] == "Key" else BLOCK_SIZES.get(self.self_ty)
+            if n is None:
+                raise Unsupported(f"{t[1]}<Self>: size of {self.self_ty} unknown")
+            v = self.param_value(name, ("arr", ("name", "u8", []), ("num", str(n))), inputs)
+            v.newtype = True
+            return v
         if t[0] == "name" and t[1] in STRUCTS and t[1] not in WIDTH:
             return self.struct_value(t[1], name, inputs)
         if t[0] == "name" and t[1] in WIDTH:
@@ -1010,6 +1074,15 @@ class Exec:
             el = self.resolve(t[1])
             if name in self.outs_only:
                 return Arr([Slot(None) for _ in range(n)])
+            if name in self.packed and el[0] == "arr" and self.resolve(el[1]) == ("name", "u8", []):
+                # an array of byte strings: one BitVec per element
+                m = self.const_of(self.eval(el[2], {}))
+                out_ = []
+                for j in range(n):
+                    arg = self.fresh(f"{name}{j}")
+                    inputs.append((arg, 8 * m))
+                    out_.append(Slot(Arr([Slot(BV(8, f"{arg}.extractLsb' {8 * (m - 1 - i)} 8", atom=False)) for i in range(m)])))
+                return Arr(out_)
             if name in self.packed and el == ("name", "u8", []):
                 # a byte string passed as one BitVec (byte 0 = most significant byte)
                 arg = self.fresh(name)
@@ -1036,6 +1109,15 @@ class Exec:
                 continue
             fields[fname] = Slot(self.param_value(f"{name}_{fname}", fty, inputs))
         return Struct(ty, fields)
+
+    def zero_of(self, t):
+        t = self.resolve(t)
+        if t[0] == "name" and t[1] in WIDTH:
+            return BV(WIDTH[t[1]], const=0)
+        if t[0] == "arr":
+            n = self.const_of(self.eval(t[2], {}))
+            return Arr([Slot(self.zero_of(t[1])) for _ in range(n)])
+        raise Unsupported(f"default of {t}")
 
     def const_of(self, v):
         v = self.deref_all(v)
@@ -1099,6 +1181,8 @@ class Exec:
             return self.index(e, env, want)
         if k == "field":
             base = self.deref_all(self.eval(e[1], env))
+            if isinstance(base, Arr) and base.newtype and e[2] == "0":
+                return base
             if isinstance(base, Arr) and e[2].isdigit():
                 return base.slots[int(e[2])].v
             if isinstance(base, Struct) and e[2] in base.fields:
@@ -1157,6 +1241,30 @@ class Exec:
             if e[1] in MACROS:
                 return self.expand_macro(e[1], e[2], env, want)
             raise Unsupported(f"macro {e[1]}!")
+        if k == "structlit":
+            ty = self.self_ty if e[1] == "Self" else e[1]
+            fields = {}
+            for fname, fe in e[2]:
+                want_ = None
+                for fn_, ft_ in STRUCTS.get(ty, []):
+                    if fn_ == fname:
+                        rt = self.resolve(ft_)
+                        if rt[0] == "name" and rt[1] in WIDTH:
+                            want_ = WIDTH[rt[1]]
+                v = self.eval(fe, env, want_)
+                if isinstance(v, ("".__class__,)):
+                    raise Unsupported("struct field value")
+                v = self.deref_all(v) if isinstance(v, Ref) else v
+                if isinstance(v, BV) and v.w is None and want_:
+                    v = BV(want_, const=v.const)
+                if isinstance(v, BV) and not v.atom and v.const is None:
+                    v = self.bind(fname, v)
+                if isinstance(v, Arr):
+                    v = self.copy(v)
+                if isinstance(v, tuple) and v and v[0] == "phantom":
+                    continue
+                fields[fname] = Slot(v)
+            return Struct(ty, fields)
         if k == "closure":
             return ("closure", e[1], e[2], env)
         if k == "sizeof":
@@ -1234,6 +1342,8 @@ class Exec:
         name = p[-1]
         if len(p) == 1 and name in env:
             return env[name].v
+        if name == "PhantomData":
+            return ("phantom",)
         if len(p) == 1 and isinstance(self.generics.get(name), int):
             return BV(64, const=self.generics[name])
         if name in ("true", "false") and len(p) == 1:
@@ -1260,6 +1370,9 @@ class Exec:
                     self.self_ty = saved
         if name in self.consts:
             return self.const_value(name)
+        if name in ("bitxor", "bitand", "bitor") and len(p) >= 2:
+            op = {"bitxor": "^", "bitand": "&", "bitor": "|"}[name]
+            return ("closure", [("pid", "\0a"), ("pid", "\0b")], ("bin", op, ("path", ["\0a"]), ("path", ["\0b"])), {})
         raise Unsupported(f"unknown name {'::'.join(p)}")
 
     def const_value(self, name):
@@ -1489,6 +1602,8 @@ class Exec:
             if name == "clone_in":
                 return self.copy(rv.inp)
             raise Unsupported(f"InOut method .{name}()")
+        if isinstance(rv, Struct) and name in ("unwrap", "expect", "clone", "into"):
+            return recv
         if isinstance(rv, Struct):
             key = f"{rv.ty}::{name}"
             if key in self.fns:
@@ -1519,6 +1634,12 @@ class Exec:
                 val = {"+": a.const + b.const, "-": a.const - b.const, "*": a.const * b.const}[op] & ((1 << a.w) - 1)
                 return BV(a.w, const=val)
             return BV(a.w, f"{a.par()} {op} {b.par()}", atom=False)
+        if name == "div_ceil":
+            a = self.scalar(rv)
+            b = self.scalar(self.eval(args[0], env, a.w))
+            if a.const is None or b.const is None:
+                raise Unsupported("div_ceil of data-dependent values")
+            return BV(a.w or b.w, const=-(-a.const // b.const))
         if name == "swap_bytes":
             a = self.scalar(rv)
             n = a.w // 8
@@ -1530,12 +1651,21 @@ class Exec:
             order = range(n - 1, -1, -1) if name == "to_be_bytes" else range(n)
             return Arr([Slot(BV(8, f"{a.par()}.extractLsb' {8 * i} 8", atom=False) if a.const is None
                              else BV(8, const=(a.const >> (8 * i)) & 0xFF)) for i in order])
-        if name in ("clone", "into", "try_into", "unwrap", "as_ref", "as_mut", "as_slice", "as_mut_slice", "borrow", "to_owned"):
+        if name in ("clone", "into", "try_into", "unwrap", "expect", "as_ref", "as_mut", "as_slice", "as_mut_slice", "borrow", "to_owned", "ok_or"):
             return self.copy(rv) if name in ("clone", "to_owned") else recv
         if name == "len":
             if isinstance(rv, Arr):
                 return BV(64, const=len(rv.slots))
             raise Unsupported("len of non-array")
+        if name == "is_empty" and isinstance(rv, Arr):
+            return BV(1, const=int(len(rv.slots) == 0))
+        if name == "contains":
+            x = self.const_of(self.eval(args[0], env))
+            if isinstance(rv, Arr):
+                return BV(1, const=int(any(self.const_of(sl.v) == x for sl in rv.slots)))
+            if isinstance(rv, tuple) and rv[0] == "range":
+                return BV(1, const=int((rv[1] or 0) <= x < rv[2]))
+            raise Unsupported("contains on non-constant collection")
         if name == "copy_from_slice":
             src = self.deref_all(self.eval(args[0], env))
             if isinstance(rv, Arr) and isinstance(src, Arr) and len(rv.slots) == len(src.slots):
@@ -1653,7 +1783,7 @@ class Exec:
             return BV(w, "(" + " ++ ".join(b.par() for b in bs) + ")", atom=True)
         if len(p) >= 2 and p[-2] in WIDTH and name in ("wrapping_add", "wrapping_sub", "wrapping_mul", "rotate_left", "rotate_right", "swap_bytes"):
             return self.mcall(("mcall", args[0], name, args[1:]), env, WIDTH[p[-2]])
-        if name == "swap" and len(p) >= 2 and p[-2] == "mem":
+        if name == "swap" and (len(p) == 1 or p[-2] == "mem") and len(args) == 2 and "swap" not in self.fns:
             a = self.eval(args[0], env)
             b = self.eval(args[1], env)
             if isinstance(a, Ref) and isinstance(b, Ref):
@@ -1662,6 +1792,14 @@ class Exec:
             raise Unsupported("mem::swap on non-references")
         if name == "Wrapping" and len(args) == 1:
             return self.eval(args[0], env, want)
+        if name in ("Ok", "Some") and len(args) == 1 and len(p) == 1:
+            return self.eval(args[0], env, want)
+        if name == "Err" and len(p) == 1:
+            raise Unsupported("the function returns Err(…) on this input shape")
+        if len(p) >= 2 and p[-2] in WIDTH and name == "default":
+            return BV(WIDTH[p[-2]], const=0)
+        if len(p) >= 2 and name == "default" and p[-2] in self.aliases:
+            return self.zero_of(self.aliases[p[-2]])
         if name in ("Default", "default") or (len(p) >= 2 and p[-1] == "default"):
             raise Unsupported("Default::default() (unknown type)")
         if len(p) >= 2:
@@ -1930,7 +2068,7 @@ def flatten(v, out, ex):
         raise Unsupported(f"cannot return {type(v).__name__}")
 
 
-def translate(crate, path, fname, lean_name, lens=None, cfg=(), extra_files=(), doc="", packed=(), outs_only=(), pack_out=0, generics=None, self_ty=None, fields=None):
+def translate(crate, path, fname, lean_name, lens=None, cfg=(), extra_files=(), doc="", packed=(), outs_only=(), pack_out=0, generics=None, self_ty=None, fields=None, types=None):
     """returns (lean text, signature description) or raises Unsupported"""
     fns, consts, aliases, errs = find_functions(os.path.join(REPO, path), cfg)
     # siblings: every other source file of the crate (the file of the function itself takes precedence)
@@ -1953,6 +2091,8 @@ def translate(crate, path, fname, lean_name, lens=None, cfg=(), extra_files=(), 
     if fname not in fns:
         raise Unsupported(f"function {fname} not found in {path}" + (f" (parse error: {errs[fname]})" if fname in errs else ""))
     fn = fns[fname]
+    for k_, v_ in (types or {}).items():
+        aliases[k_] = P(lex(v_)).ty()
     ex = Exec(fns, consts, aliases, lens, crate=crate.replace("-", "_"), packed={k: True for k in packed}, outs_only=outs_only)
     ex.cfg = cfg
     ex.lean_name = lean_name
@@ -2053,10 +2193,42 @@ TARGETS = (
 )
 
 
+def M(crate, path, ty, pre, methods=("encrypt_block", "decrypt_block"), **kw):
+    return [T(crate, path, f"{ty}::{m}", f"{pre}_{m}", **kw) for m in methods]
+
+
+SPECK = ["Speck32_64", "Speck48_72", "Speck48_96", "Speck64_96", "Speck64_128", "Speck96_96", "Speck96_144", "Speck128_128",
+         "Speck128_192", "Speck128_256"]
+CIPHER_TARGETS = (
+    M("xtea", "xtea/src/lib.rs", "Xtea", "xtea")
+    + M("sm4", "sm4/src/lib.rs", "Sm4", "sm4")
+    + sum([M("magma", "magma/src/lib.rs", "Gost89", "gost89_" + sb.lower(), generics={"S": sb})
+           for sb in ["Tc26", "TestSbox", "CryptoProA", "CryptoProB", "CryptoProC", "CryptoProD"]], [])
+    + M("camellia", "camellia/src/lib.rs", "Camellia", "camellia_rk26", generics={"RK": 26})
+    + M("camellia", "camellia/src/lib.rs", "Camellia", "camellia_rk34", generics={"RK": 34})
+    + M("aria", "aria/src/lib.rs", "Aria", "aria_rk13", generics={"RK": 13})
+    + M("aria", "aria/src/lib.rs", "Aria", "aria_rk15", generics={"RK": 15})
+    + M("aria", "aria/src/lib.rs", "Aria", "aria_rk17", generics={"RK": 17})
+    + M("des", "des/src/des.rs", "Des", "des")
+    + sum([M("des", "des/src/tdes.rs", t, t.lower()) for t in ["TdesEde3", "TdesEde2", "TdesEee3", "TdesEee2"]], [])
+    + M("cast5", "cast5/src/lib.rs", "Cast5", "cast5_16r", fields={"small_key": 0})
+    + M("cast5", "cast5/src/lib.rs", "Cast5", "cast5_12r", fields={"small_key": 1})
+    + M("cast6", "cast6/src/lib.rs", "Cast6", "cast6")
+    + M("rc2", "rc2/src/lib.rs", "Rc2", "rc2")
+    + M("serpent", "serpent/src/lib.rs", "Serpent", "serpent")
+    + M("serpent", "serpent/src/lib.rs", "Serpent", "serpent_loop", cfg=("serpent_no_unroll",))
+    + M("gift", "gift/src/lib.rs", "Gift128", "gift128")
+    + sum([M("speck", "speck/src/lib.rs", t, t.lower()) for t in SPECK], [])
+    + M("belt-block", "belt-block/src/cipher_impl.rs", "BeltBlock", "beltblock")
+    + sum([M("threefish", "threefish/src/lib.rs", t, t.lower(), methods=("encrypt_block_u64", "decrypt_block_u64"))
+           for t in ["Threefish256", "Threefish512", "Threefish1024"]], [])
+)
+
+
 def generate(out_dir=OUT, targets=TARGETS, fname="Funcs.lean"):
     """writes Gen/Funcs.lean; returns the list of broken targets"""
     parts = ["/- GENERATED by /verif/translator/funcs.py from /repo — do not edit. -/",
-             "import BlockCiphers.Gen.Tables", "import BlockCiphers.Prelude.GenTypes", "namespace BC.Gen.Fn", ""]
+             "import BlockCiphers.Gen.Tables", "import BlockCiphers.Prelude.GenTypes", "set_option maxRecDepth 100000", "set_option linter.unusedVariables false", "namespace BC.Gen.Fn", ""]
     broken = []
     for t in targets:
         kw = {k: v for k, v in t.items() if k not in ("crate", "path", "fn", "lean")}
@@ -2078,9 +2250,118 @@ def generate(out_dir=OUT, targets=TARGETS, fname="Funcs.lean"):
     return broken
 
 
+def K(crate, path, fn, lean, **kw):
+    kw.setdefault("packed", ("key", "tweak"))
+    return [T(crate, path, fn, lean, **kw)]
+
+
+KEY_TARGETS = (
+    K("xtea", "xtea/src/lib.rs", "Xtea::new_from_slice", "xtea_new_from_slice_16", lens={"key": 16})
+    + K("xtea", "xtea/src/lib.rs", "Xtea::new", "xtea_new")
+    + K("sm4", "sm4/src/lib.rs", "Sm4::new", "sm4_new")
+    + K("magma", "magma/src/lib.rs", "Gost89::new", "gost89_new", generics={"S": "Tc26"})
+    + K("des", "des/src/utils.rs", "gen_keys", "des_gen_keys")
+    + K("des", "des/src/des.rs", "Des::new", "des_new")
+    + sum([K("des", "des/src/tdes.rs", f"{t}::new", f"{t.lower()}_new") for t in ["TdesEde3", "TdesEde2", "TdesEee3", "TdesEee2"]], [])
+    + K("gift", "gift/src/key_schedule.rs", "precompute_rkeys", "gift_precompute_rkeys")
+    + K("gift", "gift/src/lib.rs", "Gift128::new", "gift128_new")
+    + sum([K("serpent", "serpent/src/lib.rs", "Serpent::new_from_slice", f"serpent_new_from_slice_{n}", lens={"key": n}) for n in (16, 17, 19, 24, 31, 32)], [])
+    + K("belt-block", "belt-block/src/cipher_impl.rs", "BeltBlock::new", "beltblock_new")
+    + sum([K("cast6", "cast6/src/lib.rs", "Cast6::new_from_slice", f"cast6_new_from_slice_{n}", lens={"key": n}) for n in (16, 20, 24, 28, 32)], [])
+    + K("aria", "aria/src/aria128.rs", "Aria128::new", "aria128_new")
+    + K("aria", "aria/src/aria192.rs", "Aria192::new", "aria192_new")
+    + K("aria", "aria/src/aria256.rs", "Aria256::new", "aria256_new")
+    + K("camellia", "camellia/src/camellia128.rs", "Camellia128::new", "camellia128_new", lens={"#key": 16})
+    + K("camellia", "camellia/src/camellia192.rs", "Camellia192::new", "camellia192_new", lens={"#key": 24})
+    + K("camellia", "camellia/src/camellia256.rs", "Camellia256::new", "camellia256_new", lens={"#key": 32})
+    + sum([K("threefish", "threefish/src/lib.rs", f"{t}::new_with_tweak", f"{t.lower()}_new_with_tweak") for t in ["Threefish256", "Threefish512", "Threefish1024"]], [])
+)
+
+
+AES_T = {"BatchBlocks": "[[u8; 16]; FIXN]", "Block": "[u8; 16]"}
+
+
+def aes_targets(path, pre, nblk, cfg=()):
+    types = {k: v.replace("FIXN", str(nblk)) for k, v in AES_T.items()}
+    sfx = "_compact" if cfg else ""
+    out = []
+    for n, kb in ((128, 16), (192, 24), (256, 32)):
+        out.append(T("aes", path, f"aes{n}_key_schedule", f"{pre}_aes{n}_key_schedule{sfx}", packed=("key",), cfg=cfg, types=types))
+        for d in ("encrypt", "decrypt"):
+            out.append(T("aes", path, f"aes{n}_{d}", f"{pre}_aes{n}_{d}{sfx}", packed=("blocks",), pack_out=16, cfg=cfg, types=types))
+    return out
+
+
+AES_FILES = {
+    "Aes_Fs64": aes_targets(FS64, "fs64", 4),
+    "Aes_Fs64c": aes_targets(FS64, "fs64", 4, cfg=("aes_compact",)),
+    "Aes_Fs32": aes_targets(FS32, "fs32", 2),
+    "Aes_Fs32c": aes_targets(FS32, "fs32", 2, cfg=("aes_compact",)),
+}
+
+
+def cipher_files():
+    """whole-cipher targets grouped per crate: Gen/Cipher_<Crate>.lean (separate modules build in parallel)"""
+    groups = {}
+    for t in CIPHER_TARGETS:
+        groups.setdefault(t["crate"].replace("-", "_").capitalize(), []).append(t)
+    return groups
+
+
+def _src_hash(crates):
+    import hashlib
+    h = hashlib.sha256()
+    h.update(open(os.path.abspath(__file__), "rb").read())
+    for c in sorted(set(crates)):
+        root = os.path.join(REPO, c, "src")
+        for dp, dn, fn_ in sorted(os.walk(root)):
+            for f in sorted(fn_):
+                if f.endswith(".rs"):
+                    p_ = os.path.join(dp, f)
+                    h.update(p_.encode())
+                    h.update(open(p_, "rb").read())
+    return h.hexdigest()
+
+
+def generate_all(out_dir=OUT):
+    """all generated files; a file is regenerated only when the sources of its crate(s) or this translator changed
+    (hashes in Gen/.funcs_cache.json), so an unchanged tree costs a few hash computations per run"""
+    import json
+    jobs = [("Funcs.lean", TARGETS)]
+    for crate, ts in cipher_files().items():
+        jobs.append((f"Cipher_{crate}.lean", ts))
+    groups = {}
+    for t in KEY_TARGETS:
+        groups.setdefault(t["crate"].replace("-", "_").capitalize(), []).append(t)
+    for crate, ts in groups.items():
+        jobs.append((f"Keys_{crate}.lean", ts))
+    for fname, ts in AES_FILES.items():
+        jobs.append((f"{fname}.lean", ts))
+    cpath = os.path.join(out_dir, ".funcs_cache.json")
+    try:
+        cache = json.load(open(cpath))
+    except (OSError, ValueError):
+        cache = {}
+    broken = []
+    for fname, ts in jobs:
+        hsh = _src_hash([t["crate"] for t in ts])
+        ent = cache.get(fname)
+        if ent and ent.get("hash") == hsh and os.path.exists(os.path.join(out_dir, fname)):
+            broken += ent.get("broken", [])
+            continue
+        b = generate(out_dir, targets=ts, fname=fname)
+        cache[fname] = {"hash": hsh, "broken": b}
+        broken += b
+    try:
+        json.dump(cache, open(cpath, "w"))
+    except OSError:
+        pass
+    return broken
+
+
 if __name__ == "__main__":
     if len(sys.argv) == 1 or sys.argv[1] == "--generate":
-        for b in generate():
+        for b in generate_all():
             print("BROKEN " + b)
         sys.exit(0)
     # ad-hoc use: funcs.py <crate> <path> <fn> [name=len ...] [cfg=flag] [extra=file]
